@@ -89,11 +89,66 @@ def _survivors(py, replies, h, first=3):
     return ("final state is not the aggregate of the records that did not fail: %s" % d) if d else None
 
 
+def transform_fault_check(p):
+    """Implementation-level (weight transforms of Count are outside the tree model): every Count of the tree gets a transform
+    that raises, or returns a non-number, for one particular weight of the stream.  Filling the whole stream under
+    try/except must give exactly the aggregate of the records whose fill does not raise (decided on an empty tree)."""
+    spec = p["spec"]
+    stream = [(r[0], r[1]) for r in p["stream"]]
+    pos = [w for _, w in stream if isinstance(w, (int, float)) and w > 0 and w != float("inf")]
+    if not pos or not any(s_["k"] == "Count" for s_ in gen.walk(spec)):
+        return []
+    bad_w = pos[len(pos) // 2]
+    wrong = len(stream) % 2 == 0
+
+    def f(w):
+        if w == bad_w:
+            if wrong:
+                return "oops"
+            raise ZeroDivisionError("transform failed")
+        return w
+
+    real_count = gen.hg.Count
+
+    def build_t():
+        gen.hg.Count = lambda *a, **kw: real_count(f)
+        try:
+            return gen.build(spec)
+        finally:
+            gen.hg.Count = real_count
+
+    try:
+        a, b = build_t(), build_t()
+    except Exception:  # noqa: BLE001
+        return []
+    raised = 0
+    for d, w in stream:
+        try:
+            a.fill(d, w)
+        except Exception:  # noqa: BLE001
+            raised += 1
+        try:
+            build_t().fill(d, w)   # whether a fill raises does not depend on the state (C02 fill_ok_indep): ask an empty tree
+        except Exception:  # noqa: BLE001
+            continue
+        b.fill(d, w)
+    try:
+        da, db = execs.canon_doc(a.toJson()), execs.canon_doc(b.toJson())
+    except Exception as e:  # noqa: BLE001
+        return ["Counts whose transform %s for weight %r: after %d raising fills the aggregator cannot be serialised: %s: %s"
+                % ("returns a string" if wrong else "raises", bad_w, raised, type(e).__name__, str(e)[:160])]
+    dd = execs.diff_doc(da, db)
+    if dd:
+        return ["Counts whose transform %s for weight %r: the stream filled under try/except (%d fills raised) differs from the "
+                "aggregate of the records whose fill does not raise: %s" % ("returns a string" if wrong else "raises", bad_w, raised, dd)]
+    return []
+
+
 def oracle(case, py, replies):
     from runner import dec
 
     py.case_params = dec(case["params"])
-    return common.eval_expect(case, py, replies)
+    return common.eval_expect(case, py, replies) + transform_fault_check(py.case_params)
 
 
 def stats(case, py, replies):
